@@ -566,6 +566,13 @@ def gen_stats_tree(rng):
                 for h in hs:
                     h['body'] = [(k, p.replace(b'\r', b'').replace(b'\xff\x00', b'zz')) for k, p in h['body']]
                     h['markers'] = [(i, b'\\ No newline at end of file') for i, m in h['markers']]
+                    if nlk == 'unix' and h['body'] and rng.random() < 0.35:
+                        # a carriage return (or another character some line splitters break on) INSIDE a line of a diff
+                        # whose lines end in LF: part of the line, whatever follows it
+                        j = rng.randrange(len(h['body']))
+                        k0, p0 = h['body'][j]
+                        brk = rng.choice([b'\r', b'\r', b'\x0b', b'\x0c', b'\x1c', b'\x1e', b'\x85', b'\xe2\x80\xa8'])
+                        h['body'][j] = (k0, p0 + brk + rng.choice([b'-b', b'+c', b' d', b'x', b'@@ -1 +1 @@']))
                     if h['ctx'] is not None:
                         h['ctx'] = h['ctx'].replace(b'\r', b'')
                 seps = [[rng.choice([b'diff --git a/x b/x', b'--- a/x', b'+++ b/x', b'index 1..2', b'garbage'])
@@ -766,6 +773,9 @@ def op_sx(o):
     raise ValueError(o)
 
 
+LIST_OPS = ('swap_changes', 'swap_files', 'reverse_changes', 'assign_changes')
+
+
 def resolve(tree, p):
     if p == 'main':
         return tree
@@ -788,19 +798,30 @@ def run_ops_impl(ops):
     writer = DiffXDOMWriter()
     trees = []
     steps = []
+    shared = {}
+
+    def pv(v):
+        # equal immutable case values are ONE Python object within a run (a program that assigns the same constant to two
+        # trees): identity of str / bytes / int values must never matter; dictionaries are built afresh every time
+        if isinstance(v, dict) and ('s' in v or 'b' in v):
+            k = json.dumps(v, sort_keys=True)
+            if k not in shared:
+                shared[k] = sl.pyval(v)
+            return shared[k]
+        return sl.pyval(v)
     try:
         for o in ops:
             n = o[0]
             out = 'unit'
             try:
                 if n == 'new':
-                    trees.append(DiffX(**{k: sl.pyval(v) for k, v in o[1]}))
+                    trees.append(DiffX(**{k: pv(v) for k, v in o[1]}))
                 elif n == 'add_change':
-                    trees[o[1]].add_change(**{k: sl.pyval(v) for k, v in o[2]})
+                    trees[o[1]].add_change(**{k: pv(v) for k, v in o[2]})
                 elif n == 'add_file':
-                    trees[o[1]].changes[o[2]].add_file(**{k: sl.pyval(v) for k, v in o[3]})
+                    trees[o[1]].changes[o[2]].add_file(**{k: pv(v) for k, v in o[3]})
                 elif n == 'set':
-                    setattr(resolve(trees[o[1]], o[2]), o[3], sl.pyval(o[4]))
+                    setattr(resolve(trees[o[1]], o[2]), o[3], pv(o[4]))
                 elif n == 'meta_put':
                     resolve(trees[o[1]], o[2]).meta[o[3]] = sl.py_json(o[4])
                 elif n == 'meta_nested_put':
@@ -810,7 +831,7 @@ def run_ops_impl(ops):
                     obj = resolve(trees[o[1]], o[2])
                     sec = {'self': obj, 'pre': getattr(obj, 'preamble_section', None), 'meta': getattr(obj, 'meta_section', None),
                            'diff': getattr(obj, 'diff_section', None)}[o[3]]
-                    sec.options[o[4]] = sl.pyval(o[5])
+                    sec.options[o[4]] = pv(o[5])
                 elif n == 'to_bytes':
                     # the public entry point AND one shared writer object: both must give the same bytes
                     b1 = trees[o[1]].to_bytes()
@@ -830,11 +851,33 @@ def run_ops_impl(ops):
                     trees.append(reader.parse(io.BytesIO(bytes.fromhex(o[1]))))
                 elif n == 'stats':
                     trees[o[1]].generate_stats()
+                elif n == 'swap_changes':
+                    # edits of the public lists that keep their length: two elements exchanged / the list reversed
+                    ch = trees[o[1]].changes
+                    ch[o[2]], ch[o[3]] = ch[o[3]], ch[o[2]]
+                elif n == 'swap_files':
+                    fl = trees[o[1]].changes[o[2]].files
+                    fl[o[3]], fl[o[4]] = fl[o[4]], fl[o[3]]
+                elif n == 'reverse_changes':
+                    trees[o[1]].changes.reverse()
+                elif n == 'assign_changes':
+                    trees[o[1]].changes = list(reversed(trees[o[1]].changes))
             except IndexError:
                 out = 'bad-index'
             except Exception as e:
                 out = '(exc)'
             steps.append((out, [snapshot(t) for t in trees]))
+        # the bytes are a function of the tree's value: AFTER the run (so that nothing here comes between two operations), every
+        # serialisation is compared with that of a tree rebuilt from scratch from the snapshot taken at that step (fresh objects)
+        for k, o in enumerate(ops):
+            if o[0] == 'to_bytes' and steps[k][0].startswith('#') and o[1] < len(steps[k][1]):
+                try:
+                    snap = steps[k][1][o[1]]
+                    t2 = build(json.loads(json.dumps(snap)))
+                    if skey(snapshot(t2)) == skey(snap) and H(t2.to_bytes()) != steps[k][0]:
+                        steps[k] = ('(to_bytes-differs-from-rebuilt-tree)', steps[k][1])
+                except Exception:
+                    pass
     finally:
         rmod.json = saved
     obs = '(' + ' '.join('(%s (%s))' % (o, ' '.join(tree_sx(s) for s in snaps)) for o, snaps in steps) + ')'
@@ -997,6 +1040,17 @@ class Alias(Family):
                     yield dict(kind='ops', ops=[['new', []]] + pre + [
                         ['meta_put', 0, path, 'reviewers', {'names': live} if nested else live],
                         ['to_bytes', 0], ['to_bytes', 0], ['eq', 0, 0], ['to_bytes', 0], ['new', []], ['eq', 0, 1], ['to_bytes', 0]])
+        # the SAME bytes / str object held by two live trees under different encodings (line endings not declared): what
+        # one tree's serialisation worked out about the value must not reach the other's
+        for e0, e1 in [('utf-16', None), (None, 'utf-16'), ('utf-32', 'utf-8'), ('utf-16-be', 'latin-1'), ('utf-8', 'utf-32-le')]:
+            for diff in ('2d610a2b620a', '2d610d0a2b620d0a', '2d000a002b000a00'):
+                mk = lambda t, e: [['new', []], ['add_change', t, []],
+                                   ['add_file', t, 0, [['meta', {'d': {'path': 'a'}}], ['diff', {'b': diff}]] +
+                                    ([['diff_encoding', {'s': e}]] if e else [])]]
+                yield dict(kind='ops', ops=mk(0, e0) + mk(1, e1) + [['to_bytes', 0], ['to_bytes', 1], ['to_bytes', 0], ['to_bytes', 1],
+                                                                  ['eq', 0, 1], ['to_bytes', 1], ['to_bytes', 0]])
+            mkp = lambda t, e: [['new', [['encoding', {'s': e or 'utf-8'}], ['preamble', {'s': 'Summary\r\nline\n'}]]]]
+            yield dict(kind='ops', ops=mkp(0, e0) + mkp(1, e1) + [['to_bytes', 0], ['to_bytes', 1], ['to_bytes', 0], ['to_bytes', 1], ['eq', 0, 1]])
         for i in range(400 if tier == 'quick' else 8000):
             ops = gen_ops(rng, rng.randint(8, 20))
             if i % 4 == 0:
@@ -1020,6 +1074,8 @@ class Alias(Family):
         obs, steps, orc = self._impl(c)
         if any(o[0] == 'meta_nested_put' for o in c['ops']):
             return None         # nested in-place edits: judged by the frame oracle alone
+        if any(o[0] in LIST_OPS for o in c['ops']):
+            return None         # edits of the public changes / files lists: judged by the oracles alone
         if '__live__' in json.dumps(c['ops']):
             return None         # live values: judged by the oracles alone (observers change nothing, same bytes twice)
         if has_mixed_keys(c['ops']):
@@ -1058,7 +1114,7 @@ class Alias(Family):
                     out.append(('C18', 'aliasing', 'op %d: editing %s.meta[%r][%r] in place also changed %s of the same tree'
                                 % (k, want, o[3], o[4], ', '.join(extra))))
             for j in range(min(len(prev), len(snaps))):
-                if j == target and n in ('add_change', 'add_file', 'set', 'meta_put', 'meta_nested_put', 'opt_put', 'stats') and res != '(exc)':
+                if j == target and n in ('add_change', 'add_file', 'set', 'meta_put', 'meta_nested_put', 'opt_put', 'stats') + LIST_OPS and res != '(exc)':
                     continue
                 if skey(prev[j]) != skey(snaps[j]):
                     if n in ('to_bytes', 'eq'):
@@ -1077,6 +1133,9 @@ class Alias(Family):
                                 % k))
             if res == 'eq-ne-inconsistent':
                 out.append(('C19', 'eq-ne-inconsistent', 'op %d: == and != disagree' % k))
+            if n == 'to_bytes' and res == '(to_bytes-differs-from-rebuilt-tree)':
+                out.append(('C18', 'serialise-not-deterministic', 'op %d: the tree serialises to other bytes than an equal tree '
+                            'built from scratch (what was serialised before matters)' % k))
             if n == 'to_bytes' and res == '(to_bytes-differs-from-write_stream)':
                 out.append(('C18', 'serialise-not-deterministic', 'op %d: DiffX.to_bytes() and a DOM writer give different '
                             'bytes for the same tree' % k))
@@ -1244,6 +1303,19 @@ class Attrs(Family):
                     ['set', 0, ['f', ci, fi], 'diff', {'b': ('-' + a0 + '\n').encode('utf-8').hex()}],
                     ['set', 1, ['f', ci, fi], 'diff', {'b': ('-' + a1 + '\n').encode('utf-8').hex()}],
                     ['eq', 0, 1], ['eq', 1, 0], ['to_bytes', 0], ['to_bytes', 1]])
+            # order is content: two equal trees, both observed (compared, serialised), then one of them gets two changes /
+            # two files exchanged, its list of changes reversed or reassigned -- the lists keep their length
+            two = [['new', [['preamble', {'s': 'top\n'}]]], ['add_change', 0, [['preamble', {'s': 'first\n'}]]],
+                   ['add_file', 0, 0, [['meta', {'d': {'path': 'a'}}], ['diff', {'b': '2d610a'}]]],
+                   ['add_file', 0, 0, [['meta', {'d': {'path': 'b'}}]]],
+                   ['add_change', 0, [['preamble', {'s': 'second\n'}]]], ['add_file', 0, 1, [['meta', {'d': {'path': 'c'}}]]]]
+            if i == 0:
+                for edit in ([['swap_changes', 1, 0, 1]], [['swap_files', 1, 0, 0, 1]], [['reverse_changes', 1]], [['assign_changes', 1]],
+                             [['swap_files', 1, 0, 0, 1], ['swap_changes', 1, 0, 1]]):
+                    for observed in (True, False):
+                        obs_ops = [['eq', 0, 1], ['to_bytes', 0], ['to_bytes', 1]] if observed else []
+                        yield dict(kind='perturb-order', ops=two + base_shift(two) + obs_ops + edit +
+                                   [['eq', 0, 1], ['eq', 1, 0], ['to_bytes', 0], ['to_bytes', 1]])
             for key, v in [('p', True), ('p', 1), ('p', 2), ('z', None)]:
                 yield dict(kind='perturb-meta', ops=base + base_shift(base) + [['meta_put', 1, ['f', ci, fi], key, v], ['eq', 0, 1],
                                                                                ['to_bytes', 0], ['to_bytes', 1]])
